@@ -604,6 +604,28 @@ def check(run):
                 tf = G.model_tokens(dict(c, atoms=fr)); t += tf[tf.index("G"):]
         m = mod.add(" ".join(t))
         jobs.append(("plruns", {"case": c, "runs": runs, "starts": starts, "idx": idx, "fresh": fresh}, None, m))
+    # selfCoordNum with a pair list (no model of its list): first step of every run against a fresh evaluation
+    for k in range(4 * scale):
+        c = gen_until(r, "selfCoordNum", generic=(k % 2 == 1), dup=0.0, cellmode=False)
+        if c is None:
+            continue
+        pr = c["params"]; pr["tol"] = r.choice([0.001, 0.0078125, 0.05]); pr["plfreq"] = r.choice([2, 3, 5])
+        spread = [[a[0], a[1]] + [10.0 * x for x in a[2:5]] for a in c["atoms"]]
+        runs = [[spread, spread], [c["atoms"], c["atoms"]]] if k % 2 == 0 else [[c["atoms"], c["atoms"]], [spread, spread], [c["atoms"]]]
+        if not all(well_conditioned(dict(c, atoms=fr)) for frames in runs for fr in frames):
+            continue
+        starts = [0] + [r.choice([1, 2, 3, 4, 7, 11, 13]) for _ in runs[1:]]
+        idx = []
+        for j, frames in enumerate(runs):
+            for f, fr in enumerate(frames):
+                if j == 0 and f == 0:
+                    idx.append(impl.add(G.impl_line([c], atoms=fr)))
+                else:
+                    if f == 0:
+                        impl.add("R %d" % starts[j])
+                    idx.append(impl.add(G.pos_line(fr)))
+        fresh = [impl.add(G.impl_line([c], atoms=frames[0])) for frames in runs]
+        jobs.append(("plruns", {"case": c, "runs": runs, "starts": starts, "idx": idx, "fresh": fresh}, None, None))
     # rmsd with atomPermutation (symmetry-adapted RMSD)
     for k in range(8 * scale):
         c = gen_ref_case(r, "rmsd")
@@ -758,9 +780,9 @@ def check(run):
             run.count("plruns/" + case_key(c) + "/%s" % obj["starts"], True)
             run.dist("tie:coordNum:pairlist:runs")
             vals = [parse_impl(iout[k]) for k in obj["idx"]]
-            b = parse_model(mout[m])
+            b = parse_model(mout[m]) if m is not None else None
             lo = min(obj["idx"]); hi = max(obj["idx"])
-            rep = replay_obj("lines", impl.lines[lo:hi + 1], {"model_lines": [mod.lines[m]], "starts": obj["starts"], "pairListFrequency": f})
+            rep = replay_obj("lines", impl.lines[lo:hi + 1], {"model_lines": [mod.lines[m]] if m is not None else [], "starts": obj["starts"], "pairListFrequency": f})
             if any(v is None or len(v) != 1 for v in vals):
                 run.violation("value:coordNum:pairlist-error", "coordNum with a pair list fails in a session of several runs: %s" % [iout[k][:40] for k in obj["idx"]][:6], rep)
             else:
@@ -770,12 +792,12 @@ def check(run):
                 for j, frames in enumerate(obj["runs"]):
                     fv = parse_impl(iout[obj["fresh"][j]])
                     if fv is None or not close(a[pos], fv[0], 1e-9):
-                        run.violation("value:coordNum:pairlist:first-step-of-run",
-                                      "coordNum (tolerance %g, pairListFrequency %d) at the first step of run %d, which starts at absolute step %d: %r, but the same coordinates evaluated from scratch give %r (stale pair list of the previous run)" % (
+                        run.violation("value:%s:pairlist:first-step-of-run" % c["comp"],
+                                      c["comp"] + " (tolerance %g, pairListFrequency %d) at the first step of run %d, which starts at absolute step %d: %r, but the same coordinates evaluated from scratch give %r (stale pair list of the previous run)" % (
                                           c["params"]["tol"], f, j + 1, obj["starts"][j], a[pos], fv and fv[0]), rep)
                         break
                     pos += len(frames)
-                if b is None or not vclose(a, b, TOL):
+                if m is not None and (b is None or not vclose(a, b, TOL)):
                     run.mismatch("value:coordNum:pairlist:runs", impl.lines[lo][:200], a, b)
         elif kind == "pairlist":
             a = parse_impl(iout[i]); b = parse_model(mout[m]); a0 = parse_impl(iout[obj["i"][0]])
